@@ -66,6 +66,28 @@ type Engine struct {
 	modelVars []modelVar
 	allocN    int
 	lastAlloc string
+	// inputBytes: total size of the slices and strings the caller passed in (allocations proportional to it are the caller's doing)
+	inputBytes string
+	storeDefs  map[string]storeDef
+	fltOf      map[string]fltInfo
+	extraDecls []string
+	sortFacts  []sortFact
+}
+
+type sortFact struct {
+	perm, inv string
+	slice     SliceV
+	stable    bool
+	less      Val
+	elem      types.Type
+}
+
+type storeDef struct{ prev, idx, val string }
+
+// fltInfo: the float value is (an integer term x) times a positive rational constant.
+type fltInfo struct {
+	x   string
+	num *big.Rat
 }
 
 // IfaceInfo records the static knowledge about an interface value built by MakeInterface.
@@ -86,7 +108,7 @@ type modelVar struct {
 func newEngine(w *World, unit *ssa.Function) *Engine {
 	return &Engine{w: w, unit: unit, decls: map[string]string{}, comps: map[string]string{}, initials: map[string]string{},
 		once: map[string]bool{}, unsupp: map[string]int{}, unmod: map[string]int{}, inlined: map[string]int{}, trusted: map[string]int{},
-		imprecise: map[string]int{}, strlits: map[string]string{}, tags: map[string]int{}}
+		imprecise: map[string]int{}, strlits: map[string]string{}, tags: map[string]int{}, storeDefs: map[string]storeDef{}, fltOf: map[string]fltInfo{}, ifaces: map[string]IfaceInfo{}}
 }
 
 type retSite struct {
@@ -100,6 +122,7 @@ type loopInfo struct {
 	ordinal int // ordinal of the for/range statement in source order, 1-based; 0 if unknown
 	blocks  map[*ssa.BasicBlock]bool
 	mods    map[string]bool
+	own     map[string]bool // components the loop body itself stores to
 	all     bool
 	// per execution
 	phiAtHead map[*ssa.Phi]Val
@@ -125,6 +148,10 @@ type frame struct {
 	defers []*ssa.Defer
 	tags   []string
 	safety []string
+	parent *frame
+	privAllocs []*ssa.Alloc
+	touched      map[string][]string
+	touchedTypes map[string]bool
 }
 
 func (e *Engine) ob(f *frame, kind, label string, tags []string, pc, cond string, pos token.Pos) {
@@ -260,6 +287,10 @@ func (f *frame) globalLoad(g *ssa.Global) Val {
 				}
 			}
 			if _, isMap := under(t).(*types.Map); isMap {
+				e.assume(fmt.Sprintf("(> %s 0)", v))
+			}
+			if !e.w.scope[g.Pkg] {
+				// package-level variables of other packages (io.Discard, io.EOF, ...) are initialised
 				e.assume(fmt.Sprintf("(> %s 0)", v))
 			}
 		}
@@ -406,8 +437,12 @@ func (w *World) findLoops(fn *ssa.Function) map[*ssa.BasicBlock]*loopInfo {
 
 // exec symbolically executes fn from the given state.
 func (e *Engine) exec(fn *ssa.Function, args []Val, binds []Val, pc string, heap *Heap, prefix string, top bool, depth int, con *Contract, tags, safety []string) ([]Val, string, *Heap, *frame) {
+	return e.execP(nil, fn, args, binds, pc, heap, prefix, top, depth, con, tags, safety)
+}
+
+func (e *Engine) execP(parent *frame, fn *ssa.Function, args []Val, binds []Val, pc string, heap *Heap, prefix string, top bool, depth int, con *Contract, tags, safety []string) ([]Val, string, *Heap, *frame) {
 	f := &frame{e: e, fn: fn, vals: map[ssa.Value]Val{}, pcs: map[*ssa.BasicBlock]string{}, heaps: map[*ssa.BasicBlock]*Heap{},
-		prefix: prefix, entry: heap.clone(), args: args, con: con, top: top, depth: depth, tags: tags, safety: safety}
+		prefix: prefix, entry: heap.clone(), args: args, con: con, top: top, depth: depth, tags: tags, safety: safety, parent: parent}
 	for i, p := range fn.Params {
 		f.vals[p] = args[i]
 	}
@@ -426,7 +461,7 @@ func (e *Engine) exec(fn *ssa.Function, args []Val, binds []Val, pc string, heap
 	for _, li := range f.loops {
 		li.phiAtHead = nil
 		if li.mods == nil {
-			li.mods, li.all = e.w.loopMods(fn, li)
+			li.mods, li.own, li.all = e.w.loopMods(fn, li)
 		}
 	}
 	order := rpo(fn)
@@ -572,27 +607,20 @@ func (f *frame) enterLoop(li *loopInfo, b *ssa.BasicBlock, pc0 string, h *Heap, 
 	riPhi, riBound := rangeIndexBound(b)
 	for _, c := range invs {
 		env := f.specEnv(h, b, entryPhi)
-		t := e.evalBool(env, c.Expr)
-		e.ob(f, "inv-init", c.label(), c.tagsOr(f.tags), pc0, t, f.loopPos(li))
+		ts, ls := e.conjuncts(env, c.Expr, "")
+		for i := range ts {
+			e.ob(f, "inv-init", c.clabel(ls[i]), c.tagsOr(f.tags), pc0, ts[i], f.loopPos(li))
+		}
 	}
 	if riPhi != nil && riBound != nil {
 		x := e.scalar(entryPhi[riPhi])
 		n := e.scalar(f.get(riBound))
 		e.ob(f, "inv-init", "auto:rangeindex", f.safety, pc0, fmt.Sprintf("(and (<= (- 1) %s) (<= %s (- %s 1)) (<= 0 %s))", x, x, n, n), f.loopPos(li))
 	}
-	// 3. havoc what the loop may change
-	if li.all {
-		e.havocAll(h)
-	} else {
-		var ks []string
-		for k := range li.mods {
-			ks = append(ks, k)
-		}
-		sort.Strings(ks)
-		for _, k := range ks {
-			e.havocHeapComp(h, k)
-		}
-	}
+	// 3. havoc what the loop may change (object-restricted where the contract has a touches clause)
+	touched, _ := f.touchedOf()
+	f.havocModsT(h, li.mods, li.all, touched, li.own)
+	e.bumpWater(f.prefix + "loop") // objects allocated by earlier iterations exist now
 	li.phiAtHead = map[*ssa.Phi]Val{}
 	for _, ins := range b.Instrs {
 		if in, ok := ins.(*ssa.Phi); ok {
@@ -658,8 +686,12 @@ func (f *frame) backEdge(li *loopInfo, from *ssa.BasicBlock, pc string, h *Heap)
 	}
 	for _, c := range f.loopClauses(li, "invariant") {
 		env := f.specEnv(h, b, next)
-		e.ob(f, "inv-keep", c.label(), c.tagsOr(f.tags), pc, e.evalBool(env, c.Expr), f.loopPos(li))
+		ts, ls := e.conjuncts(env, c.Expr, "")
+		for i := range ts {
+			e.ob(f, "inv-keep", c.clabel(ls[i]), c.tagsOr(f.tags), pc, ts[i], f.loopPos(li))
+		}
 	}
+	f.frameObs("frame-keep", pc, li.headHeap, h, f.loopPos(li))
 	riPhi, riBound := rangeIndexBound(b)
 	if riPhi != nil && riBound != nil {
 		x := e.scalar(next[riPhi])
@@ -887,7 +919,7 @@ func (f *frame) step(b *ssa.BasicBlock, ins ssa.Instruction, pc string, h *Heap,
 			d := f.defers[i]
 			if d.Block().Dominates(b) {
 				f.call(d, d.Common(), pc, h)
-			} else if f.pcs[d.Block()] != "" {
+			} else if f.pcs[d.Block()] != "" && reachable(d.Block(), b) {
 				e.unsupp["conditional-defer"]++
 			}
 		}
@@ -915,6 +947,24 @@ func (f *frame) step(b *ssa.BasicBlock, ins ssa.Instruction, pc string, h *Heap,
 	return true
 }
 
+func reachable(from, to *ssa.BasicBlock) bool {
+	seen := map[*ssa.BasicBlock]bool{}
+	stack := []*ssa.BasicBlock{from}
+	for len(stack) > 0 {
+		x := stack[len(stack)-1]
+		stack = stack[:len(stack)-1]
+		if x == to {
+			return true
+		}
+		if seen[x] {
+			continue
+		}
+		seen[x] = true
+		stack = append(stack, x.Succs...)
+	}
+	return false
+}
+
 func addT(a, b string) string {
 	if a == "0" {
 		return b
@@ -928,18 +978,19 @@ func addT(a, b string) string {
 // newRef allocates a reference distinct from every pre-existing and every earlier allocated one.
 func (e *Engine) newRef(prefix string) string {
 	r := e.fresh("alloc."+prefix, "Int")
-	if e.lastAlloc == "" {
-		e.assume(fmt.Sprintf("(and (> %s pre) (> %s 0))", r, r))
-	} else {
-		e.assume(fmt.Sprintf("(> %s %s)", r, e.lastAlloc))
-	}
+	e.assume(fmt.Sprintf("(and (> %s %s) (> %s 0))", r, e.water(), r))
 	e.lastAlloc = r
 	return r
 }
 
 // allocOb bounds an allocation of `bytes` bytes: below the 2 GiB ceiling (C10/C20).
 func (f *frame) allocOb(pc, bytes string, pos token.Pos, ins ssa.Instruction) {
-	f.safetyOb("alloc", pc, fmt.Sprintf("(< %s 2147483648)", bytes), pos, ins)
+	e := f.e
+	if e.inputBytes == "" {
+		f.safetyOb("alloc", pc, fmt.Sprintf("(< %s 2147483648)", bytes), pos, ins)
+		return
+	}
+	f.safetyOb("alloc", pc, fmt.Sprintf("(or (< %s 2147483648) (<= %s (* 2 %s)))", bytes, bytes, e.inputBytes), pos, ins)
 }
 
 // zeroElems makes the elements of a fresh backing array zero.
@@ -1002,7 +1053,29 @@ func (f *frame) binop(in *ssa.BinOp, pc string) Val {
 	xt := in.X.Type()
 	nm := f.name(in)
 	if sortOf(xt) == "Flt" {
-		return e.havocVal(nm, in.Type())
+		r := e.havocVal(nm, in.Type())
+		if in.Op == token.MUL {
+			var fi fltInfo
+			var cst *ssa.Const
+			if a, ok := e.fltOf[e.scalar(x)]; ok {
+				fi = a
+				cst, _ = in.Y.(*ssa.Const)
+			} else if b, ok := e.fltOf[e.scalar(y)]; ok {
+				fi = b
+				cst, _ = in.X.(*ssa.Const)
+			}
+			if cst != nil && cst.Value != nil && fi.num != nil {
+				if rat, ok := constant.Val(constant.ToFloat(cst.Value)).(*big.Rat); ok && rat.Sign() > 0 {
+					e.fltOf[e.scalar(r)] = fltInfo{x: fi.x, num: new(big.Rat).Mul(fi.num, rat)}
+				} else if fl, ok := constant.Val(constant.ToFloat(cst.Value)).(*big.Float); ok && fl.Sign() > 0 {
+					rat, _ := fl.Rat(nil)
+					if rat != nil {
+						e.fltOf[e.scalar(r)] = fltInfo{x: fi.x, num: new(big.Rat).Mul(fi.num, rat)}
+					}
+				}
+			}
+		}
+		return r
 	}
 	cmp := func(op string) Val {
 		if isStr(xt) {
@@ -1157,6 +1230,25 @@ func (f *frame) convert(in *ssa.Convert, pc string, h *Heap) Val {
 		}
 		return SliceV{r, "0", l, l}
 	}
+	if sortOf(to) == "Flt" && fok {
+		r := e.havocVal(nm, to)
+		e.fltOf[e.scalar(r)] = fltInfo{x: e.scalar(x), num: big.NewRat(1, 1)}
+		return r
+	}
+	if sortOf(from) == "Flt" && tok {
+		r := e.havocVal(nm, to)
+		if fi, ok := e.fltOf[e.scalar(x)]; ok && fi.num.Cmp(big.NewRat(1, 1)) >= 0 {
+			// r = int(float64(x) * c), c >= 1, 0 <= x < 2^53: float64(x) is exact and rounding is monotone, so
+			// x <= r <= ceil(c) * x  (trusted floating-point fact, listed as imprecise:float-scale)
+			k := new(big.Int).Add(new(big.Int).Quo(fi.num.Num(), fi.num.Denom()), big.NewInt(1))
+			rs := e.scalar(r)
+			e.assume(fmt.Sprintf("(=> (and (<= 0 %s) (< %s 9007199254740992)) (and (<= %s %s) (<= %s (* %s %s))))", fi.x, fi.x, fi.x, rs, rs, k.String(), fi.x))
+			e.imprecise["float-scale"]++
+			return r
+		}
+		e.imprecise["float-conversion"]++
+		return r
+	}
 	if sortOf(to) == "Flt" || sortOf(from) == "Flt" {
 		e.imprecise["float-conversion"]++
 		return e.havocVal(nm, to)
@@ -1248,6 +1340,7 @@ func (f *frame) makeInterface(in *ssa.MakeInterface, pc string, h *Heap) Val {
 		r = e.fresh(f.name(in)+".iface", "Int")
 		e.assume(fmt.Sprintf("(and (= (dyntag %s) %d) (> %s 0))", r, tag, r))
 	}
+	e.ifaces[r] = IfaceInfo{Dyn: xt, P: x}
 	// error classification by dynamic type
 	if implementsError(xt) {
 		tn := types.TypeString(xt, func(p *types.Package) string { return p.Name() })
